@@ -188,6 +188,67 @@ func poolStress(args []string) int {
 		_ = enc.Encode(core.Ev{"op": "final", "finished": finished})
 		lg.mu.Unlock()
 	}
+	// restart while the previous run is still draining: the only worker is busy and more tasks are queued when Shutdown and
+	// then Start are called (Start has to wait for the previous run to complete); the busy task is released; Start returns;
+	// one more task; Shutdown and wait.  Every accepted task runs, everything returns.
+	for tr := 0; tr < 4; tr++ {
+		queued := 1 + tr
+		lg := &plog{}
+		p := hive.New("redrain", hive.WithWorkerCount(1), hive.WithCancelPendingTasksOnShutdown(false))
+		var incs atomic.Int64
+		p.PendingTasksCounter.Subscribe(func(o, n int) {
+			if n > o {
+				incs.Add(1)
+			}
+		})
+		submit := func(k int, body func()) {
+			lg.add(core.Ev{"op": "begin", "k": k})
+			before := incs.Load()
+			p.Submit(func() { lg.add(core.Ev{"op": "run", "k": k}); body() })
+			lg.add(core.Ev{"op": "end", "k": k, "acc": incs.Load() > before})
+		}
+		p.Start()
+		release, entered := make(chan struct{}), make(chan struct{})
+		done := make(chan struct{})
+		go func() {
+			defer close(done)
+			submit(1, func() { close(entered); <-release })
+			<-entered
+			for k := 2; k <= 1+queued; k++ {
+				submit(k, func() {})
+			}
+			p.Shutdown()
+			started := make(chan struct{})
+			go func() { defer close(started); p.Start() }()
+			select {
+			case <-started:
+			case <-time.After(30 * time.Millisecond):
+			}
+			close(release)
+			<-started
+			submit(2+queued, func() {})
+			p.Shutdown()
+			p.ShutdownComplete.Wait()
+			lg.add(core.Ev{"op": "complete", "pending": p.PendingTasksCounter.Get()})
+		}()
+		finished := true
+		select {
+		case <-done:
+		case <-time.After(5 * time.Second):
+			finished = false
+			hangs++
+		}
+		lg.mu.Lock()
+		_ = enc.Encode(core.Ev{"op": "reset", "cfg": core.Ev{"workers": 1, "cancel": false}})
+		for _, e := range lg.evs {
+			_ = enc.Encode(e)
+		}
+		if !finished {
+			_ = enc.Encode(core.Ev{"op": "complete", "pending": 0})
+		}
+		_ = enc.Encode(core.Ev{"op": "final", "finished": finished})
+		lg.mu.Unlock()
+	}
 	for tr := 0; tr < *traces; tr++ {
 		workers := 1 + rng.Intn(4)
 		cancel := rng.Intn(2) == 0
